@@ -10,6 +10,8 @@ def oc_plugin(rng, profile):
     d = {'deploy': 'ok', 'enabled': True, 'start': 'ok', 'beh': 'success'}
     if r < p.get('p_deployfail', 0.08):
         d['deploy'] = 'fail'
+    elif r < p.get('p_deployfail', 0.08) + p.get('p_startfail', 0.05):
+        d['start'] = 'fail'       # deployed, but the connection cannot be read from: the step fails to start (crashed)
     r = rng.random()
     if r < p.get('p_error', 0.15):
         d['beh'] = 'error'
@@ -62,6 +64,10 @@ def mksum(rng, earlier, first=None):
     (Integer arithmetic on plugin outputs is avoided here: positive integers arrive from the plugin as uint64, which the
     expression library cannot add - exercised separately by C07.)"""
     a = first or rng.choice(earlier)
+    if rng.random() < 0.3:
+        # two different nodes of ONE producer in one expression, the one that resolves first named first
+        return fexpr('boolToString($.steps.%s.enabling.resolved.enabled) + $.steps.%s.outputs.success.tok' % (a, a),
+                     ['steps.%s.enabling.resolved.enabled' % a, 'steps.%s.outputs.success.tok' % a])
     others = [x for x in earlier if x != a]
     b = rng.choice(others) if others else a
     return fexpr('$.steps.%s.outputs.success.tok + $.steps.%s.outputs.success.tok' % (a, b),
@@ -209,6 +215,8 @@ def gen_workflow(rng, profile):
         oc[s] = o
         ex = {'out': {'crash': 'success'}.get(o['beh'], o['beh']), 'crash': o['beh'] == 'crash', 'delay_ms': rng.choice([0, 0, 1, 3, 8]), 'n': rng.randint(0, 50)}
         script[s] = {'deploy': {'fail': o['deploy'] == 'fail', 'delay_ms': rng.choice([0, 0, 2])}, 'exec': ex}
+        if o.get('start') == 'fail':
+            script[s]['deploy']['fail_read'] = True
     # outputs
     pids = [x for x in ids if x not in loops]
     def out_tree(kind_pool, must=None):
